@@ -30,6 +30,8 @@ ASSUMPTIONS = ["floats as exact reals", "trim_graph itself runs on concrete data
 
 wb.TEMPLATES.setdefault("trimchain", {"A1": 1, "A2": 2, "B1": "=A1+1", "C1": "=B1*10", "D1": "=C1+5", "E1": "=A2*3", "F1": "=D1+E1"})
 wb.TEMPLATES.setdefault("buried", {"A1": 2, "A2": 7, "B1": "=A1*10", "C1": "=B1+A1", "D1": "=C1+A2"})
+# the buried input B1 has a precedent of its own (A3) that nothing else needs
+wb.TEMPLATES.setdefault("buried2", {"A1": 2, "A2": 7, "A3": 5, "B1": "=A3*10", "C1": "=B1+A1", "D1": "=C1+A2"})
 
 # (template, inputs, outputs)
 CASES = (
@@ -41,6 +43,7 @@ CASES = (
     ("nested", ("A1", "A4"), ("C1",)), ("nested", ("A3",), ("B2", "C1")),
     ("trimchain", ("A1",), ("B1", "D1")), ("trimchain", ("A1", "A2"), ("B1", "F1")), ("trimchain", ("A2",), ("F1",)),
     ("buried", ("A1", "B1"), ("C1", "D1")), ("buried", ("A1",), ("D1",)), ("buried", ("B1", "A2"), ("D1",)),
+    ("buried2", ("A1", "B1"), ("C1", "D1")), ("buried2", ("B1",), ("B1", "D1")),
 )
 _FILES = {}
 
@@ -80,7 +83,7 @@ def _cells_of(t, spec):
     return [wb.addr(spec)]
 
 
-def ob_trim(ci, kind, k0: int = 0, v0: int = 0, k1: int = 0, v1: int = 0, k2: int = 0, v2: int = 0,
+def ob_trim(ci, kind, before=False, k0: int = 0, v0: int = 0, k1: int = 0, v1: int = 0, k2: int = 0, v2: int = 0,
             l0: int = 0, w0: int = 0, l1: int = 0, w1: int = 0, l2: int = 0, w2: int = 0) -> Optional[bool]:
     """after trim_graph(inputs, outputs) (directly / after save+load) every output equals the untrimmed full recompute
     under a first and then a second assignment of the inputs"""
@@ -95,9 +98,16 @@ def ob_trim(ci, kind, k0: int = 0, v0: int = 0, k1: int = 0, v1: int = 0, k2: in
     m = _model(ci, kind)
     out_cells = [a for spec in outs for a in _cells_of(t, spec)]
     current = {}
+    if before:
+        # before any assignment the trimmed (and reloaded) model already returns what the untrimmed one does
+        exp = wb.oracle(t, current)
+        for a in out_cells:
+            if not _eq(m.evaluate(a), exp[a]):
+                return False
+        return True
     for rnd, (kk, vv) in enumerate(((ks, vs), (ls, ws))):
         for i, a in enumerate(in_cells):
-            if rnd == 1 and i >= (2 if len(in_cells) == 2 and t in ("buried", "trimchain") else 1):
+            if rnd == 1 and i >= (2 if len(in_cells) == 2 and t in ("buried", "buried2", "trimchain") else 1):
                 continue        # second assignment: the first input cell only (both on the two-input chain templates)
             val = value_of(kk[i], vv[i])
             m.set_value(a, val)
@@ -121,11 +131,11 @@ def obligations(tier):
     kinds = ("direct", "yml", "pkl") if tier == "quick" else ("direct", "yml", "pkl", "json")
     for ci, (t, ins, outs) in enumerate(CASES):
         n = sum(len(_cells_of(t, s)) for s in ins)
-        sig = ", ".join([f"k{i}: int, v{i}: int" for i in range(n)] + [f"l{i}: int, w{i}: int" for i in range(2 if (n == 2 and t in ("buried", "trimchain")) else 1)])
+        sig = ", ".join([f"k{i}: int, v{i}: int" for i in range(n)] + [f"l{i}: int, w{i}: int" for i in range(2 if (n == 2 and t in ("buried", "buried2", "trimchain")) else 1)])
         for kind in kinds:
-            if tier == "quick" and kind != "direct" and t not in ("trimchain", "buried", "sumrange"):
+            if tier == "quick" and kind != "direct" and t not in ("trimchain", "buried", "buried2", "sumrange"):
                 continue
-            if tier == "quick" and kind == "pkl" and t != "buried":
+            if tier == "quick" and kind == "pkl" and t not in ("buried", "buried2"):
                 continue
             if tier == "quick" and t == "trimchain" and len(ins) == 2 and kind != "yml":
                 continue
@@ -133,6 +143,11 @@ def obligations(tier):
                 continue
             if tier == "quick" and (t, ins) == ("chain", ("A1", "A2")):
                 continue
-            obs.append(Obligation(PROP, f"trim[{t}:{'+'.join(ins)}->{'+'.join(outs)},{kind}]", __name__, "ob_trim", (ci, kind),
+            obs.append(Obligation(PROP, f"trim[{t}:{'+'.join(ins)}->{'+'.join(outs)},{kind}]", __name__, "ob_trim", (ci, kind, False),
                                   timeout=300 if tier == "quick" else 1500, float_mode="real", sig=sig, group=t))
+    for ci, (t, ins, outs) in enumerate(CASES):
+        for kind in kinds:
+            # no assignment at all: nothing symbolic, one concrete path through the real evaluate per case
+            obs.append(Obligation(PROP, f"untouched[{t}:{'+'.join(ins)}->{'+'.join(outs)},{kind}]", __name__, "ob_trim",
+                                  (ci, kind, True), timeout=120, float_mode="real", sig="k0: int", group=t))
     return obs
